@@ -22,7 +22,7 @@ import (
 
 // C04 — every RPC call gets its own handler run, result and status.
 
-var c04kinds = []string{"ok", "code", "panic", "oneway", "cstream", "sstream", "early", "sfail", "send"}
+var c04kinds = []string{"ok", "code", "panic", "oneway", "cstream", "sstream", "early", "sfail", "send", "zero"}
 
 func c04request(kind string, id int) prpc.Request {
 	w := prpc.NewRequestWriter()
@@ -75,6 +75,9 @@ func (h *c04server) handle(ctx Context, ch ServerChannel) (ref.R[[]byte], status
 		return valueBytes(fmt.Sprintf("res-%d", id)), status.OK
 	case "code":
 		return nil, status.New(status.Code(fmt.Sprintf("my_code_%d", id)), fmt.Sprintf("msg %d", id))
+	case "zero":
+		// the zero status (empty code) with a message and a result: not OK, the caller must see it as it is
+		return valueBytes(fmt.Sprintf("res-%d", id)), status.Status{Message: fmt.Sprintf("msg %d", id)}
 	case "panic":
 		panic(fmt.Sprintf("handler panic %d", id))
 	case "oneway":
@@ -150,7 +153,7 @@ func c04call(c Client, kind string, id int, r *c04result) {
 	ctx := async.NoContext()
 	req := c04request(kind, id)
 	switch kind {
-	case "ok", "code", "panic":
+	case "ok", "code", "panic", "zero":
 		res, st := c.Request(ctx, req)
 		r.st = st
 		if st.OK() {
@@ -223,6 +226,10 @@ func c04check(x *vexp.Ctx, r *c04result, h *c04server, faulty bool) {
 	case "code":
 		if string(r.st.Code) != fmt.Sprintf("my_code_%d", r.id) || r.st.Message != fmt.Sprintf("msg %d", r.id) {
 			x.Fail("application status code/message not propagated to its caller", "%s: got code=%q message=%q", name, r.st.Code, r.st.Message)
+		}
+	case "zero":
+		if r.st.OK() || r.st.Code != "" || r.st.Message != fmt.Sprintf("msg %d", r.id) {
+			x.Fail("a handler's status with an empty code is not delivered as it is (an OK response is observed only if the server sent OK)", "%s: got code=%q message=%q result=%q", name, r.st.Code, r.st.Message, r.result)
 		}
 	case "panic":
 		if r.st.OK() {
@@ -324,7 +331,7 @@ func init() {
 			}
 			return out
 		},
-		Doc: "real rpc client over a real mpx client (scheduler-controlled connector), real rpc server handler: every ordered pair (thorough: triples) of concurrent calls from {unary ok, application code+message, handler panic, oneway, client-streaming, server-streaming, early response, server-streaming that ends with an application status, server-streaming with an explicit SendEnd}, MaxConns 1 or 2; every caller is checked against the sequential specification of its own call id; rpc response frames on the wire are counted",
+		Doc: "real rpc client over a real mpx client (scheduler-controlled connector), real rpc server handler: every ordered pair (thorough: triples) of concurrent calls from {unary ok, application code+message, handler panic, oneway, client-streaming, server-streaming, early response, server-streaming that ends with an application status, server-streaming with an explicit SendEnd, unary with the zero status (empty code) and a result}, MaxConns 1 or 2; every caller is checked against the sequential specification of its own call id; rpc response frames on the wire are counted",
 		Body: func(x *vexp.Ctx) {
 			h := &c04server{invoked: map[int]int{}, streams: map[int][]string{}}
 			srv := &server{handler: HandleFunc(h.handle)}
@@ -461,11 +468,8 @@ func init() {
 			if panicked != "" {
 				x.Fail("client panics on a malformed reply", "reply variant %d: %s", reply, panicked)
 			}
-			if r.st.OK() && reply != 4 {
+			if r.st.OK() {
 				x.Fail("malformed reply surfaces as OK", "reply variant %d kind %s: result=%q", reply, r.kind, r.result)
-			}
-			if reply == 4 && r.st.OK() && r.result != "" {
-				x.Fail("response without status/result yields data", "result=%q", r.result)
 			}
 			// follow-up call on the recycled call state (pools are LIFO): a well-formed reply must be seen as such
 			vsched.WaitIdle("quiesce")
